@@ -546,6 +546,7 @@ func init() {
 				}
 				items = append(items, it)
 			}
+			items = append(items, preprocItem("C03", "destination", "panic"))
 			// "...of every Go/JSON/form representation": the record through all eight front ends, untagged and
 			// source-tagged, any one unit over the front-end alphabets; reported here: a rendering that yields the same
 			// issues as the Go map but another destination
